@@ -397,6 +397,20 @@ func visitInstr(fr *frame, instr ssa.Instruction) continuation {
 		x := fr.get(instr.X)
 		idx := fr.get(instr.Index)
 
+		if si, ok := idx.(sym); ok {
+			switch x := x.(type) {
+			case array:
+				if v, ok := tableLookup(fr, nil, len(x), func(i int) value { return x[i] }, si); ok {
+					fr.env[instr] = v
+					return kNext
+				}
+			case string:
+				if v, ok := tableLookup(fr, nil, len(x), func(i int) value { return x[i] }, si); ok {
+					fr.env[instr] = v
+					return kNext
+				}
+			}
+		}
 		switch x := x.(type) {
 		case array:
 			fr.env[instr] = x[indexValue(fr, idx, len(x))]
